@@ -35,7 +35,7 @@ func init() {
 			"LEB128 and OBU-header inverses are checked on the values the traffic produces (sampling; the property's 'all 2^16 byte pairs' is an enumeration this family does not do)",
 			"only the last OBU of a temporal unit may omit its size field",
 		},
-		ProbeNames: []string{"one-byte-free-W0", "obu-ends-at-mtu", "size-127-128-split", "three-layer-ids-in-a-row", "last-obu-without-size", "zero-length-obu", "fragmented-obu", "aggregated-packet"},
+		ProbeNames: []string{"one-byte-free-W0", "obu-ends-at-mtu", "size-127-128-split", "three-layer-ids-in-a-row", "last-obu-without-size", "zero-length-obu", "fragmented-obu", "aggregated-packet", "layered-obu-tail"},
 	})
 }
 
@@ -216,6 +216,9 @@ func runC13(c *core.Ctx) {
 func c13rules(c *core.Ctx, ps [][]byte, mtu int) bool {
 	nontrivial := false
 	prevY := false
+	// layer ids of the OBU whose fragments run on into the next payload: its later fragments carry no header, but the
+	// OBU they belong to still shares the packet with whatever follows (carryExt: the extension octet itself is still to come)
+	carryHave, carryExt, carryT, carryS := false, false, byte(0), byte(0)
 	for i, p := range ps {
 		if len(p) > mtu {
 			c.Violate("rules", "C13/rules/payload-exceeds-mtu", "payload %d is %d bytes, MTU %d", i, len(p), mtu)
@@ -259,8 +262,20 @@ func c13rules(c *core.Ctx, ps [][]byte, mtu int) bool {
 				c.Probe("size-127-128-split")
 			}
 			if j == 0 && r.z {
-				continue // continuation of the previous packet's OBU: no header here
+				// continuation of the previous packet's OBU: no header here, the ids are those of the OBU's first fragment
+				if carryExt {
+					carryHave, carryExt, carryT, carryS = true, false, e[0]>>5, e[0]>>3&3
+				}
+				if carryHave {
+					tid, sid, have = carryT, carryS, true
+					c.Probe("layered-obu-tail")
+				}
+				if !(len(r.elems) == 1 && r.y) {
+					carryHave, carryExt = false, false
+				}
+				continue
 			}
+			carryHave, carryExt = false, false
 			if e[0]&0x80 != 0 {
 				c.Violate("rules", "C13/rules/forbidden-bit", "payload %d element %d begins with an OBU header whose forbidden bit is set", i, j)
 				return nontrivial
@@ -281,6 +296,11 @@ func c13rules(c *core.Ctx, ps [][]byte, mtu int) bool {
 					return nontrivial
 				}
 				tid, sid, have = tt, ss, true
+				if j == len(r.elems)-1 && r.y {
+					carryHave, carryT, carryS = true, tt, ss
+				}
+			} else if e[0]&0x04 != 0 && j == len(r.elems)-1 && r.y {
+				carryExt = true
 			}
 		}
 	}
